@@ -23,6 +23,16 @@ Decided (necessary conditions visible in the shape of ResourceManager):
       precedes the re-entrant await; every push is popped on every exit (also exceptional); what a
       resolution scope sets up before its `yield` is undone on every exit; a shared per-resolution cache is cleared
       when the depth returns to zero.
+  R6  (identity of a resource on the cycle chain) a genuine cycle is reported only if the resource that is met again gives the
+      *same key* as when it was pushed.  Descriptors are not such a key: the rule establishes from the code that the descriptors a
+      descriptor hands back to the manager (`await <manager>.get(d)` in `_Resource._resolve_dependencies`) derive, without a memo, from a
+      call that evaluates the factory's annotations anew on every visit (`typing.get_type_hints`, reached through `get_dependencies`):
+      for a dependency written as a string annotation (`from __future__ import annotations`, a quoted forward reference — the only way
+      two factories can name each other) every visit builds a new descriptor object.  Therefore the key of the chain, at the membership
+      test, at the push and at the keyed pop alike, must be a value computed from what the resource was declared with (today
+      `resource.name`, the key of the caches): not the descriptor object (no descriptor class defines `__eq__`), not `id()`, not a bound
+      method, not an attribute whose definition in some descriptor class contains a per-object / per-evaluation source (id(), the object
+      itself, a serial number, a clock, a random value); and the keyed pop must remove the very key that was pushed.
 Not decided: identity of objects at run time, factories that spawn tasks themselves, sync factories that block,
 a sync factory whose *dependency* is a coroutine factory (the re-entrant await is taken as suspending only if a dependency does),
 the full sequential algorithm on arbitrary dependency graphs (R3 of the design: not implemented), whether two
@@ -34,11 +44,11 @@ from __future__ import annotations
 import ast
 from dataclasses import dataclass, field
 
-from ..astx import MUTATORS, atoms, call_name, dotted, expand, facts_at, has_fact, last
+from ..astx import MUTATORS, atoms, call_name, dep_slice, dotted, expand, facts_at, has_fact, last
 from ..cfg import CFG, Node, exprs_in_node
 from ..index import AnchorError, FuncNode, ancestors, enclosing_function, module_of, parent, qualname_of, repo_root, walk_shallow
 from ..report import VERIF, Check
-from ..selftest import Twin
+from ..selftest import Twin, multi
 
 EXPLANATION = (
     "Premise (bound structurally): Workflow.__init__ stores one ResourceManager per workflow instance and the step worker "
@@ -61,9 +71,19 @@ EXPLANATION = (
     "itself to the callee is dominated by a push; from a push every path to an exit passes a pop (path-sensitive on `K in chain`); "
     "in the scope generator every set-up before the yield (`+= 1`, `token = cv.set(..)`) has its undo on every path after the yield; "
     "a per-resolution cache kept on the instance is cleared on every exit on which the depth is zero.  "
-    "Not decided: run-time object identity, factories spawning tasks, design rules R3 (bounded interpretation of `_get`) and R4."
+    "R6: premise, decided from the code: the argument of `await <manager>.get(d)` in the coroutines of the descriptor classes depends (may-dependence slice, followed "
+    "through methods of the class and functions of the module, stopped at any memo: cache decorator, value stored on the object) on a call that re-evaluates annotations "
+    "on every call (`get_type_hints`, `get_annotations`, `eval`, `signature(eval_str=True)`), so a dependency declared through a string annotation is a new descriptor object "
+    "at every visit.  Obligation: every key of the cycle chain (the `K in chain` test that guards the raise, every push, every keyed pop; locals expanded) is computed from the "
+    "descriptor parameter (receiver of the re-entrant await) only through attributes all of whose definitions in every descriptor class (assignments in any method, property "
+    "returns, followed through `self.<attr>` three deep) are free of per-object / per-evaluation sources (id(), the object itself without own equality/text, serial numbers, "
+    "clocks, random values); the descriptor object itself, `id(d)`, a bound method are identity keys and are reported; a keyed pop must use the key that was pushed.  "
+    "Classes that define their own `__eq__`/`__hash__` used as keys, and keys not computed from the descriptor, are not analysed (analysis error, not a pass).  "
+    "Not decided: run-time object identity, factories spawning tasks, design rules R3 (bounded interpretation of `_get`) and R4; whether two *different* resources can share a "
+    "name (same `__qualname__`: a false cycle) is outside R6."
 )
-TRUSTED = ["CPython ast", "asyncio: a task runs without interleaving between suspension points", "contextvars: each task has its own context copy"]
+TRUSTED = ["CPython ast", "asyncio: a task runs without interleaving between suspension points", "contextvars: each task has its own context copy",
+           "typing.get_type_hints evaluates a string annotation anew on each call (a call expression inside it builds a new object per evaluation)"]
 TECHNIQUE = "await-atomicity windows over the statement CFG + may-suspend summary + must-pass (T3) checks"
 LEVEL_NOTE = "necessary conditions; the interleavings themselves were confirmed dynamically (triage/t_srv.py::c22, triage/t_c22.py)"
 
@@ -993,9 +1013,8 @@ def _window_factory_kinds(chk, model: Model, v: MethodView, w: Node, t: Node, mi
 # ------------------------------------------------------------------------------------------- R5
 
 
-def _r5(chk, model: Model, views: dict[str, MethodView], store: str) -> None:
-    m = model.m
-    # cycle tests: `K in CHAIN` guarding a raise
+def _cycle_tests(views: dict[str, MethodView]) -> list[tuple[MethodView, Node, str, str]]:
+    """Cycle tests: `K in CHAIN` guarding a raise -> (method view, test node, text of K, text of CHAIN)."""
     cyc = []
     for v in views.values():
         cfg = v.cfg
@@ -1008,22 +1027,53 @@ def _r5(chk, model: Model, views: dict[str, MethodView], store: str) -> None:
                         e = ast.parse(text, mode="eval").body
                         if pol and isinstance(e, ast.Compare) and len(e.ops) == 1 and isinstance(e.ops[0], ast.In):
                             cyc.append((v, t, ast.unparse(e.left), ast.unparse(e.comparators[0])))
-    cyc = list({(id(v), id(t)): (v, t, k, c) for v, t, k, c in cyc}.values())
+    return list({(id(v), id(t)): (v, t, k, c) for v, t, k, c in cyc}.values())
+
+
+def _positional(e: ast.AST | None) -> bool:
+    """An index, not a key (`pop()`, `pop(-1)`, `del chain[-1]`)."""
+    if e is None:
+        return True
+    if isinstance(e, ast.UnaryOp) and isinstance(e.op, ast.USub):
+        e = e.operand
+    return isinstance(e, ast.Constant) and isinstance(e.value, int)
+
+
+def _chain_ops(v: MethodView, chain: str) -> tuple[list, list]:
+    """Pushes on / pops from the cycle chain in one method.
+    push = (cfg node, anchor ast, key expression, text of the operation); a keyed table counts too (`chain[K] = v`).
+    pop  = (cfg node, key expression or None when the pop is positional (`pop()`, `del chain[-1]`))."""
+    pushes, pops = [], []
+    for n in v.cfg.nodes:
+        if n.ast is None:
+            continue
+        for c in exprs_in_node(n):
+            if isinstance(c, ast.Call) and isinstance(c.func, ast.Attribute) and ast.unparse(c.func.value) == chain:
+                if c.func.attr in ("append", "add", "insert", "appendleft"):
+                    pushes.append((n, c, c.args[-1] if c.args else None, f"{chain}.{c.func.attr}({ast.unparse(c.args[-1]) if c.args else ''})"))
+                if c.func.attr in ("remove", "pop", "discard", "popleft"):
+                    k = c.args[0] if c.args else None
+                    pops.append((n, None if (c.func.attr in ("pop", "popleft") and _positional(k)) else k))
+        if n.kind == "stmt" and isinstance(n.ast, ast.Assign):
+            for tg in n.ast.targets:
+                if isinstance(tg, ast.Subscript) and ast.unparse(tg.value) == chain:
+                    pushes.append((n, n.ast, tg.slice, f"{chain}[{ast.unparse(tg.slice)}] = …"))
+        if isinstance(n.ast, ast.Delete):
+            for tg in n.ast.targets:
+                if isinstance(tg, ast.Subscript) and ast.unparse(tg.value) == chain:
+                    pops.append((n, None if _positional(tg.slice) else tg.slice))
+    return pushes, pops
+
+
+def _r5(chk, model: Model, views: dict[str, MethodView], store: str) -> None:
+    m = model.m
+    cyc = _cycle_tests(views)
     chk.floor("C22.R5", "cycle tests (`<key> in <chain>` guarding a raise)", len(cyc), 1)
     for v, t, key, chain in cyc:
         cfg = v.cfg
-        pushes, pops, functional = [], [], []
-        for n in cfg.nodes:
-            if n.ast is None:
-                continue
-            for c in exprs_in_node(n):
-                if isinstance(c, ast.Call) and isinstance(c.func, ast.Attribute) and ast.unparse(c.func.value) == chain:
-                    if c.func.attr in ("append", "add", "insert", "appendleft"):
-                        pushes.append((n, c))
-                    if c.func.attr in ("remove", "pop", "discard", "popleft"):
-                        pops.append(n)
-            if isinstance(n.ast, ast.Delete) and any(isinstance(tg, ast.Subscript) and ast.unparse(tg.value) == chain for tg in n.ast.targets):
-                pops.append(n)
+        functional = []
+        pushes, keyed_pops = _chain_ops(v, chain)
+        pops = [n for n, _k in keyed_pops]
         for c in walk_shallow(v.fn):
             if isinstance(c, ast.Call) and any(isinstance(a, (ast.BinOp, ast.Tuple, ast.List)) and chain in ast.unparse(a) and key in ast.unparse(a) for a in list(c.args) + [k.value for k in c.keywords]):
                 functional.append(c)
@@ -1033,13 +1083,13 @@ def _r5(chk, model: Model, views: dict[str, MethodView], store: str) -> None:
             chk.ob("C22.R5", f"the chain `{chain}` is extended functionally with the tested key (nothing to pop)", True, m=m, node=c, fn=v.fn, instance="chain-functional")
         reentrant = [s for s in v.susp if any(isinstance(x, ast.Await) and isinstance(x.value, ast.Call) and
                                                any(isinstance(a, ast.Name) and a.id == v.sn for a in list(x.value.args) + [k.value for k in x.value.keywords]) for x in exprs_in_node(s))]
-        for n, c in pushes:
-            arg = ast.unparse(c.args[-1]) if c.args else ""
+        for n, c, karg, optext in pushes:
+            arg = ast.unparse(karg) if karg is not None else ""
             facts = facts_at(cfg, n)
             ok = arg == key and has_fact(facts, f"{key} in {chain}", False)
             chk.ob("C22.R5", f"the key pushed on the cycle chain was tested absent from it (`{key} in {chain}` is false on every path to the push)", ok,
                    m=m, node=c, fn=v.fn, instance="cycle-test-dominates-push",
-                   reason=f"`{chain}.{c.func.attr}({arg})` is reachable without `{key} in {chain}` being known false: a genuine cycle through such a resource recurses instead of being reported")
+                   reason=f"`{optext}` is reachable without `{key} in {chain}` being known false: a genuine cycle through such a resource recurses instead of being reported")
             starts = [x for lab, x in cfg.succ[n] if lab not in NOEXC]
             absent = []
             want = atoms(ast.parse(f"{key} in {chain}", mode="eval").body, False)
@@ -1053,7 +1103,7 @@ def _r5(chk, model: Model, views: dict[str, MethodView], store: str) -> None:
             chk.ob("C22.R5", "every push on the cycle chain is popped on every exit, also when the factory raises or the task is cancelled", not leaks,
                    m=m, node=c, fn=v.fn, instance="chain-push-pop",
                    reason="a name can stay on the chain after the coroutine left (a later resolution of that resource reports a false cycle)", path=_desc(v, p))
-        push_nodes = [n for n, _c in pushes]
+        push_nodes = [p_[0] for p_ in pushes]
         if pushes:
             chk.floor("C22.R5", "re-entrant awaits (the manager itself is passed to the awaited callee)", len(reentrant), 1)
         for s in reentrant:
@@ -1152,6 +1202,296 @@ def _r5(chk, model: Model, views: dict[str, MethodView], store: str) -> None:
                    reason=f"the scope can be left at depth zero without clearing `{loc.name}`: a non-cached resource is then reused by later step invocations")
 
 
+# ------------------------------------------------------------------------------------------- R6: identity of a resource on the cycle chain
+
+# calls whose value differs from one object / one evaluation to the next
+IDENTITY_CALLS = ("id", "object", "uuid1", "uuid4", "urandom", "token_hex", "token_urlsafe", "token_bytes", "random", "randint", "randrange", "getrandbits",
+                  "time", "time_ns", "monotonic", "monotonic_ns", "perf_counter", "perf_counter_ns", "get_ident", "count")
+# calls that evaluate annotation text anew each time they are called
+REEVAL_CALLS = ("get_type_hints", "get_annotations", "eval", "_eval_type", "evaluate_forward_ref")
+CACHE_DECORATORS = ("lru_cache", "cache", "cached_property", "memoize")
+VALUE_DUNDERS = ("__eq__", "__hash__", "__repr__", "__str__")
+
+
+def _is_identity_call(c: ast.Call) -> bool:
+    nm = last(call_name(c))
+    if nm in IDENTITY_CALLS:
+        return True
+    # `next(_counter)`: the serial-number idiom (not `next(iter(x))`)
+    return nm == "next" and len(c.args) == 1 and isinstance(c.args[0], (ast.Name, ast.Attribute))
+
+
+def _walk_with_parent(e: ast.AST, par: ast.AST | None = None):
+    yield e, par
+    for ch in ast.iter_child_nodes(e):
+        yield from _walk_with_parent(ch, e)
+
+
+def _descriptor_impls(model: Model, meth: str) -> list[tuple[object, ast.ClassDef]]:
+    """Classes of the package that implement the descriptor method the manager awaits re-entrantly (not the Protocol)."""
+    out = []
+    for _ref, cm, cdef in model.repo.all_classes():
+        if not (cm.name == PKG or cm.name.startswith(PKG + ".")):
+            continue
+        if any(last(dotted(b)) == "Protocol" for b in cdef.bases):
+            continue
+        if any(isinstance(b, FuncNode) and b.name == meth for b in cdef.body):
+            out.append((cm, cdef))
+    return out
+
+
+def _worse(a: tuple[str, str], b: tuple[str, str]) -> tuple[str, str]:
+    order = {"identity": 2, "unknown": 1, "stable": 0}
+    return a if order[a[0]] >= order[b[0]] else b
+
+
+def _self_expr_kind(e: ast.AST, cls: ast.ClassDef, sn: str | None, depth: int, seen: frozenset) -> tuple[str, str]:
+    """Is the value of `e` (an expression of a method of `cls`) the same for two objects built from the same arguments?
+    'identity' : it contains something that differs per object / per evaluation (id(), the object itself, a serial number, a clock);
+    'stable'   : nothing of that kind found (constructor arguments, attributes derived from them, pure calls);
+    'unknown'  : a construct the rule does not follow."""
+    res = ("stable", "")
+    for x, par in _walk_with_parent(e):
+        if isinstance(x, ast.Call) and _is_identity_call(x):
+            return "identity", f"`{ast.unparse(x)[:50]}` differs from one descriptor object to the next"
+        if isinstance(x, ast.Name) and x.id == sn and sn is not None:
+            if isinstance(par, ast.Attribute) and par.value is x:
+                if depth > 0 and par.attr not in seen:
+                    k = _attr_kind(cls, par.attr, depth - 1, seen | {par.attr})
+                    if k[0] == "missing":
+                        k = ("unknown", f"`{sn}.{par.attr}` is not defined in {cls.name}")
+                    res = _worse(res, k)
+            elif any(isinstance(b, FuncNode) and b.name in VALUE_DUNDERS for b in cls.body):
+                res = _worse(res, ("unknown", f"the object `{sn}` itself is used and {cls.name} defines its own equality / text"))
+            else:
+                return "identity", f"the descriptor object itself (`{sn}`) is part of the value and {cls.name} defines no equality / text of its own"
+    return res
+
+
+def _attr_kind(cls: ast.ClassDef, attr: str, depth: int = 3, seen: frozenset = frozenset()) -> tuple[str, str]:
+    """Classify attribute `attr` of descriptor class `cls` over *all* its definitions (assignments in any method, property
+    returns, class-level value): 'stable' / 'identity' / 'unknown' as in _self_expr_kind, or 'missing'."""
+    defs: list[tuple[ast.AST, ast.AST, str | None, str]] = []
+    declared = False
+    for b in cls.body:
+        if isinstance(b, FuncNode):
+            sn = _self_name(b)
+            if b.name == attr:
+                if any(last(dotted(d) or (call_name(d) if isinstance(d, ast.Call) else None)) in ("property", "cached_property") for d in b.decorator_list):
+                    for r in walk_shallow(b):
+                        if isinstance(r, ast.Return) and r.value is not None:
+                            defs.append((r.value, r, sn, f"{cls.name}.{attr}"))
+                    continue
+                return "identity", f"`{attr}` is a plain method of {cls.name}: a bound method compares by the identity of its object"
+            for s in walk_shallow(b):
+                tgts, val = [], None
+                if isinstance(s, ast.Assign):
+                    tgts, val = s.targets, s.value
+                elif isinstance(s, ast.AnnAssign) and s.value is not None:
+                    tgts, val = [s.target], s.value
+                elif isinstance(s, ast.AugAssign):
+                    tgts, val = [s.target], None
+                for tg in tgts:
+                    if isinstance(tg, ast.Attribute) and tg.attr == attr and isinstance(tg.value, ast.Name) and tg.value.id == sn:
+                        if val is None:
+                            return "unknown", f"`{sn}.{attr}` is updated in place in {cls.name}.{b.name}"
+                        defs.append((val, s, sn, f"{cls.name}.{b.name}"))
+        elif isinstance(b, ast.Assign) and any(isinstance(tg, ast.Name) and tg.id == attr for tg in b.targets):
+            defs.append((b.value, b, None, cls.name))
+        elif isinstance(b, ast.AnnAssign) and isinstance(b.target, ast.Name) and b.target.id == attr:
+            declared = True
+            if b.value is not None:
+                defs.append((b.value, b, None, cls.name))
+    if not defs:
+        return ("unknown", f"`{attr}` is only declared in {cls.name}") if declared else ("missing", f"{cls.name} has no `{attr}`")
+    res = ("stable", "")
+    for val, at, sn, where in defs:
+        k = _self_expr_kind(expand(val, at), cls, sn, depth, seen)
+        if k[0] != "stable":
+            k = (k[0], f"{where}: {k[1]}")
+        res = _worse(res, k)
+    return res
+
+
+def _key_kind(key: ast.AST, at: ast.AST, dname: str, impls: list[tuple[object, ast.ClassDef]]) -> tuple[str, str]:
+    """Classify a key of the cycle chain computed from the descriptor parameter `dname`: does a *re-created* descriptor of the
+    same resource give an equal key?"""
+    e = expand(key, at)
+    res = ("stable", "")
+    uses = 0
+    names = ", ".join(c.name for _m, c in impls)
+    for x, par in _walk_with_parent(e):
+        if isinstance(x, ast.Call) and _is_identity_call(x):
+            return "identity", f"`{ast.unparse(x)[:50]}` is different for every descriptor object"
+        if not (isinstance(x, ast.Name) and x.id == dname):
+            continue
+        uses += 1
+        if isinstance(par, ast.Attribute) and par.value is x:
+            for _cm, cdef in impls:
+                k = _attr_kind(cdef, par.attr)
+                if k[0] == "missing":
+                    k = ("unknown", k[1])
+                res = _worse(res, k)
+            continue
+        with_eq = [c.name for _m, c in impls if any(isinstance(b, FuncNode) and b.name in ("__eq__", "__hash__") for b in c.body)
+                   or any(last(dotted(d) or (call_name(d) if isinstance(d, ast.Call) else None)) == "dataclass" for d in c.decorator_list)]
+        if with_eq:
+            res = _worse(res, ("unknown", f"the descriptor object itself is the key and {', '.join(with_eq)} define(s) equality: that equality is not analysed"))
+        else:
+            return "identity", f"the descriptor object itself is the key and no descriptor class ({names}) defines `__eq__`: membership, `remove` and hashing go by object identity"
+    if not uses and res[0] == "stable":
+        return "unknown", f"`{ast.unparse(e)[:50]}` is not computed from the descriptor `{dname}`"
+    return res
+
+
+def _memoized(fn: ast.AST, sl) -> bool:
+    """The function keeps what it computed (cache decorator, or a value of the slice stored on the object / a table)."""
+    if any(last(dotted(d) or (call_name(d) if isinstance(d, ast.Call) else None)) in CACHE_DECORATORS for d in fn.decorator_list):
+        return True
+    calls = {id(c) for c in sl.calls()}
+    for s in walk_shallow(fn):
+        tgts, val = [], None
+        if isinstance(s, ast.Assign):
+            tgts, val = s.targets, s.value
+        elif isinstance(s, ast.AnnAssign) and s.value is not None:
+            tgts, val = [s.target], s.value
+        for tg in tgts:
+            base = tg.value if isinstance(tg, ast.Subscript) else tg
+            if isinstance(base, ast.Attribute) and val is not None:
+                if any((isinstance(x, ast.Name) and x.id in sl.locals) or id(x) in calls for x in ast.walk(val)):
+                    return True
+    return False
+
+
+def _reeval_sources(cm, cdef: ast.ClassDef | None, fn: ast.AST, sl, depth: int, seen: frozenset) -> list[str]:
+    """Calls in the dependence slice `sl` (of a value of `fn`) that evaluate annotation text anew on every call, followed
+    through methods of the same class and functions of the same module (their returned values), unless memoized."""
+    out: list[str] = []
+    if _memoized(fn, sl):
+        return out
+    sn = _self_name(fn) if cdef is not None else None
+    for c in sl.calls():
+        nm = last(call_name(c))
+        if nm in REEVAL_CALLS or (nm == "signature" and any(k.arg == "eval_str" and isinstance(k.value, ast.Constant) and k.value.value is True for k in c.keywords)):
+            out.append(f"`{' '.join(ast.unparse(c).split())[:70]}` in {qualname_of(fn)}")
+            continue
+        callee, ccls = None, None
+        if isinstance(c.func, ast.Attribute) and isinstance(c.func.value, ast.Name) and c.func.value.id == sn and cdef is not None:
+            callee, ccls = next((b for b in cdef.body if isinstance(b, FuncNode) and b.name == c.func.attr), None), cdef
+        elif isinstance(c.func, ast.Name) and isinstance(cm.functions.get(c.func.id), FuncNode):
+            callee = cm.functions[c.func.id]
+        if callee is None or depth <= 0 or id(callee) in seen:
+            continue
+        for r in walk_shallow(callee):
+            if isinstance(r, ast.Return) and r.value is not None:
+                out += _reeval_sources(cm, ccls, callee, dep_slice(callee, r.value), depth - 1, seen | {id(callee)})
+    return out
+
+
+def _fresh_descriptor_sources(model: Model, impls: list[tuple[object, ast.ClassDef]]) -> list[str]:
+    """Premise of R6, decided from the code: the descriptors a descriptor hands back to the manager (`await <manager>.get(d)` in a
+    coroutine of a descriptor class) derive from a call that re-evaluates annotations each time it runs, with no memo in between.
+    A dependency written as a string annotation (`from __future__ import annotations`, a quoted forward reference — the only way
+    two factories can name each other) is then a *new* descriptor object at every visit."""
+    mgr_coros = {k for k, f in model.methods.items() if isinstance(f, ast.AsyncFunctionDef)}
+    out: list[str] = []
+    for cm, cdef in impls:
+        for f in cdef.body:
+            if not isinstance(f, ast.AsyncFunctionDef):
+                continue
+            sn = _self_name(f)
+            params = {a.arg for a in f.args.posonlyargs + f.args.args + f.args.kwonlyargs} - {sn}
+            for c in walk_shallow(f):
+                # awaited in place or handed to gather / create_task: the coroutine of the manager is started with this descriptor
+                if not (isinstance(c, ast.Call) and isinstance(c.func, ast.Attribute) and c.func.attr in mgr_coros and c.args):
+                    continue
+                recv = expand(c.func.value, c)
+                if not (isinstance(recv, ast.Name) and recv.id in params):
+                    continue
+                out += [f"{src} (it feeds `{' '.join(ast.unparse(c).split())[:60]}` of {cdef.name}.{f.name})"
+                        for src in _reeval_sources(cm, cdef, f, dep_slice(f, c.args[0]), 3, frozenset({id(f)}))]
+    return list(dict.fromkeys(out))
+
+
+def _r6(chk, model: Model, views: dict[str, MethodView], store: str, floors: bool = True) -> None:
+    """The key under which a resource stands on the cycle chain must be equal for every descriptor of that resource."""
+    m = model.m
+    sites = core = 0
+    sources: list[str] | None = None
+    for v, t, key, chain in _cycle_tests(views):
+        pushes, pops = _chain_ops(v, chain)
+        # a `finally` body has one CFG copy per way of entering it: one site per source construct
+        pushes = list({id(p_[1]): p_ for p_ in pushes}.values())
+        pops = list({id(k if k is not None else n.ast): (n, k) for n, k in pops}.values())
+        if not pushes:
+            continue  # functional chain: R5 ties the extension to the tested key; nothing is stored
+        # the descriptor: receiver of the re-entrant await (`await D.resolve(self)`), a parameter of the method
+        params = {a.arg for a in v.fn.args.posonlyargs + v.fn.args.args + v.fn.args.kwonlyargs} - {v.sn}
+        desc: dict[str, str] = {}
+        for s in v.susp:
+            for x in exprs_in_node(s):
+                if isinstance(x, ast.Await) and isinstance(x.value, ast.Call) and isinstance(x.value.func, ast.Attribute) \
+                        and any(isinstance(a, ast.Name) and a.id == v.sn for a in list(x.value.args) + [k.value for k in x.value.keywords]):
+                    recv = expand(x.value.func.value, x)
+                    if isinstance(recv, ast.Name) and recv.id in params:
+                        desc[recv.id] = x.value.func.attr
+        if len(desc) != 1:
+            raise AnchorError(f"C22.R6: cannot bind the descriptor parameter of {v.name} (receiver of the re-entrant await that is handed the manager): found {sorted(desc)}")
+        dname, meth = next(iter(desc.items()))
+        impls = _descriptor_impls(model, meth)
+        if not impls:
+            raise AnchorError(f"C22.R6: no class of `{PKG}` implements `{meth}` (descriptor classes cannot be bound)")
+        if sources is None:
+            sources = _fresh_descriptor_sources(model, impls)
+        cache_keys = sorted({ast.unparse(x.slice) for x in walk_shallow(v.fn) if isinstance(x, ast.Subscript) and _reads_loc(x.value, v.sn, store)})
+        hint = f"; key the chain by the value the caches are keyed by (`{cache_keys[0]}`) in the test, the push and the pop alike" if cache_keys else ""
+        key_ast = ast.parse(key, mode="eval").body
+        roles: list[tuple[str, ast.AST, ast.AST, ast.AST, str]] = [("test", key_ast, t.ast, t.ast.test, f"{key} in {chain}")]
+        roles += [("push", k, n.ast, c, optext) for n, c, k, optext in pushes if k is not None]
+        roles += [("pop", k, n.ast, k, f"removal of `{ast.unparse(k)}` from {chain}") for n, k in pops if k is not None]
+        kinds: dict[str, str] = {}
+        for role, kexpr, at, node, text in roles:
+            sites += 1
+            core += role != "pop"
+            kind, why = _key_kind(kexpr, at, dname, impls)
+            kinds[role] = kind
+            if kind == "unknown":
+                raise AnchorError(f"C22.R6: the cycle-chain key of `{text}` in {v.name} is not understood: {why}")
+            if kind == "identity" and not sources:
+                raise AnchorError(f"C22.R6: `{text}` in {v.name} keys the cycle chain by object identity ({why}) and the rule cannot establish where dependency "
+                                  "descriptors come from (no annotation re-evaluation found behind the re-entrant `get`): whether identity is stable must be re-read")
+            chk.ob("C22.R6", f"the key of the cycle chain ({role}) is the same for every descriptor of one resource"
+                   + (": descriptors of dependencies are re-created at every visit, so only" if sources else " (") + " a value computed from what the resource was declared with (its name) "
+                   "meets itself again around a genuine cycle" + ("" if sources else ")"), kind == "stable",
+                   m=m, node=node, fn=v.fn, instance=f"cycle-key-stable:{role}",
+                   reason=(f"`{text}`: {why}.  Descriptors are not stable objects: {sources[0] if sources else ''} runs on every visit of a factory and evaluates string annotations "
+                           "(`from __future__ import annotations`, quoted forward references — the only way two factories can name each other) anew, so each time round a genuine cycle the "
+                           f"same factory arrives as a new descriptor object, the key never matches, and resolution recurses until RecursionError instead of reporting "
+                           f"`Circular resource dependency`{hint}") if kind != "stable" else "")
+        # the keyed pop must remove what the push stored
+        pushed = {ast.unparse(expand(k, n.ast)) for n, _c, k, _t in pushes if k is not None}
+        for n, k in pops:
+            if k is None or not pushed:
+                continue
+            sites += 1
+            got = ast.unparse(expand(k, n.ast))
+            chk.ob("C22.R6", "the chain entry is removed under the key it was pushed with", got in pushed, m=m, node=k, fn=v.fn, instance="cycle-key:pop-is-pushed-key",
+                   reason=f"`{got}` is removed from `{chain}` but `{sorted(pushed)[0]}` was pushed: the entry is never found, stays on the chain of this resolution, and the next "
+                          "dependency path that reaches the resource (a diamond) is reported as a cycle that does not exist")
+    if floors:
+        chk.floor("C22.R6", "keys of the cycle chain classified at the membership test and at the push (a keyed pop adds two more sites: its key, and pop-is-pushed-key; "
+                  "a positional pop none)", core, 2)
+        chk.extra["cycle_key_sites"] = {"test_and_push": core, "with_keyed_pops": sites}
+        if sources:
+            chk.floor("C22.R6", "annotation re-evaluations behind the descriptors a descriptor hands to `<manager>.get` (premise: dependency descriptors are new objects per visit)",
+                      len(sources), 1)
+        else:
+            # an identity key without the premise is an analysis error above; value keys are right whatever the provenance of descriptors
+            chk.observe("C22.R6: no annotation re-evaluation was found behind the descriptors handed to `<manager>.get` on this tree (1 on the confirmed tree); every chain key is a "
+                        "value computed from the declaration, which is correct whether or not descriptors are re-created")
+        chk.extra["descriptor_provenance"] = sources or []
+
+
 # ------------------------------------------------------------------------------------------- entry
 
 
@@ -1169,6 +1509,8 @@ def run(chk) -> None:
     _r1(chk, model, views, store, mediators)
     _planted(chk)
     _r5(chk, model, views, store)
+    _r6(chk, model, views, store)
+    _planted_r6(chk)
 
 
 def _planted(chk) -> None:
@@ -1187,6 +1529,24 @@ def _planted(chk) -> None:
     if not want <= got:
         raise AnchorError(f"C22.R1: planted shared-state constructs not reported (reported {sorted(got)})")
     chk.floor("C22.R1", "planted constructs reported in fixtures/c22/shared_state.py (shared ContextVar default, module-global table)", len(want & got), 2)
+
+
+def _planted_r6(chk) -> None:
+    """R6 matches no violation in the pinned tree: a chain keyed by descriptor objects is analysed on every run and must be reported
+    at all three roles (test, push, pop)."""
+    fx = VERIF / "fixtures" / "c22" / "identity_chain.py"
+    if not fx.is_file():
+        raise AnchorError(f"C22.R6: fixture {fx} missing")
+    variant = chk.repo.with_overlay({_P: fx.read_text(encoding="utf-8")})
+    model = _build_model(variant)
+    views = {n: MethodView(model, n, f) for n, f in model.methods.items() if n != "__init__" and _self_name(f) is not None}
+    scratch = Check("C22", variant, quiet=True, write=False)
+    _r6(scratch, model, views, _store_attr(model), floors=False)
+    got = {o.key.rsplit("|", 1)[1] for o in scratch.violations()}
+    want = {"cycle-key-stable:test", "cycle-key-stable:push", "cycle-key-stable:pop"}
+    if not want <= got:
+        raise AnchorError(f"C22.R6: planted identity-keyed cycle chain not reported (reported {sorted(got)})")
+    chk.floor("C22.R6", "planted identity-keyed chain roles reported in fixtures/c22/identity_chain.py (test, push, pop)", len(want & got), 3)
 
 
 # ------------------------------------------------------------------------------------------- twins
@@ -1671,4 +2031,52 @@ TWINS += [
          "            args[pname] = await resource_manager.get(dep)\n", None),
     Twin("nearest harmless: sync factories in a worker thread, creation under the per-name lock (window closed)", _P, _TAIL,
          _TAIL.replace(_SYNC_CALL, _TO_THREAD, 1).replace(_OLD, _FIXED, 1), None),
+]
+
+# ---- identity of a resource on the cycle chain (seed S131 and its class)
+_T_TEST = "        if resource.name in state.resolving:\n            chain = \" -> \".join(state.resolving) + f\" -> {resource.name}\"\n"
+_T_PUSH = "        state.resolving.append(resource.name)\n"
+_T_POP = "            if resource.name in state.resolving:\n                state.resolving.remove(resource.name)\n"
+_T_DECL = "        self.resolving: list[str] = []  # Track resources being resolved in order\n"
+_T_NAME = "        self.name = getattr(factory, \"__qualname__\", type(factory).__name__)\n"
+
+TWINS += [
+    Twin("cycle chain tracks descriptor objects instead of names (seed S131)", _P, *multi(_P, [
+        (_T_DECL, "        self.resolving: list[ResourceDescriptor] = []\n"),
+        (_T_TEST, "        if resource in state.resolving:\n            chain = \" -> \".join(r.name for r in state.resolving)\n            chain += f\" -> {resource.name}\"\n"),
+        (_T_PUSH, "        state.resolving.append(resource)\n"),
+        (_T_POP, "            if resource in state.resolving:\n                state.resolving.remove(resource)\n"),
+    ]), "C22.R6"),
+    Twin("cycle chain keyed by id() of the descriptor", _P, *multi(_P, [
+        (_T_DECL, "        self.resolving: list[int] = []\n"),
+        (_T_TEST, "        if id(resource) in state.resolving:\n            chain = f\"... -> {resource.name}\"\n"),
+        (_T_PUSH, "        state.resolving.append(id(resource))\n"),
+        (_T_POP, "            if id(resource) in state.resolving:\n                state.resolving.remove(id(resource))\n"),
+    ]), "C22.R6"),
+    Twin("descriptor-keyed chain through a local (`node = resource`) and a keyed table", _P, *multi(_P, [
+        (_T_DECL, "        self.resolving: dict[Any, str] = {}\n"),
+        (_T_TEST, "        node = resource\n        if node in state.resolving:\n            chain = \" -> \".join(state.resolving.values()) + f\" -> {resource.name}\"\n"),
+        (_T_PUSH, "        state.resolving[node] = resource.name\n"),
+        (_T_POP, "            state.resolving.pop(node, None)\n"),
+    ]), "C22.R6"),
+    Twin("factory resources get a name that is unique per descriptor object", _P, _T_NAME,
+         "        self.name = f\"{getattr(factory, '__qualname__', type(factory).__name__)}@{id(self):x}\"\n", "C22.R6"),
+    Twin("tested and pushed by name, removed by descriptor object", _P, _T_POP,
+         "            if resource in state.resolving:\n                state.resolving.remove(resource)\n", "C22.R6"),
+    Twin("benign: the chain key held in a local", _P, *multi(_P, [
+        (_T_TEST, "        key = resource.name\n        if key in state.resolving:\n            chain = \" -> \".join(state.resolving) + f\" -> {key}\"\n"),
+        (_T_PUSH, "        state.resolving.append(key)\n"),
+        (_T_POP, "            if key in state.resolving:\n                state.resolving.remove(key)\n"),
+    ]), None),
+    Twin("benign (nearest harmless): the chain keeps the descriptors, keyed by name", _P, *multi(_P, [
+        (_T_DECL, "        self.resolving: dict[str, ResourceDescriptor] = {}  # name -> descriptor, in order\n"),
+        (_T_PUSH, "        state.resolving[resource.name] = resource\n"),
+        (_T_POP, "            state.resolving.pop(resource.name, None)\n"),
+    ]), None),
+    Twin("benign: chain key is the (name, cache flag) pair", _P, *multi(_P, [
+        (_T_DECL, "        self.resolving: list[tuple[str, bool]] = []\n"),
+        (_T_TEST, "        if (resource.name, resource.cache) in state.resolving:\n            chain = \" -> \".join(n for n, _c in state.resolving) + f\" -> {resource.name}\"\n"),
+        (_T_PUSH, "        state.resolving.append((resource.name, resource.cache))\n"),
+        (_T_POP, "            if (resource.name, resource.cache) in state.resolving:\n                state.resolving.remove((resource.name, resource.cache))\n"),
+    ]), None),
 ]
